@@ -99,6 +99,16 @@ def run(ctx):
             add('TCP', struct.pack('>HHIIBBHHH', 1, 2, 3, 4, (5 + (nn + 2 + 3) // 4) << 4, 0x10, 100, 0, 0) + (bytes([code, nn + 2]) + data + bytes(3))[:4 * ((nn + 2 + 3) // 4)])
             add('PPPoE', bytes([0x11, 9]) + struct.pack('>HH', 0, 4 + nn) + struct.pack('>HH', code, nn) + data)
             n_opt += 4
+    # 802.11 tagged parameters behind a beacon: every element id, lengths 0..13 (all residues of the 2- and 3-byte records) and
+    # the largest ones
+    bhdr = bytes([0x80, 0]) + bytes(2) + b'\xff' * 6 + bytes([2, 0, 0, 0, 0, 1]) * 2 + bytes(2) + bytes(8) + struct.pack('<HH', 100, 0x0411)
+    for code in codes:
+        for ln in (list(range(0, 14)) + [253, 254, 255] if not quick else rng.sample(list(range(0, 14)), 5) + [254, 255]):
+            data = bytes(rng.randrange(256) for _ in range(ln))
+            add('Dot11Beacon', bhdr + bytes([code, ln]) + data)
+            add('Dot11::from_bytes', bhdr + bytes([0, 3]) + b'abc' + bytes([code, ln]) + data)
+            nn_opt = 0
+            n_opt += 2
     # DNS names whose decoded length sits around the 255-character limit, plain and reached through a pointer
     for total in range(248, 262):
         for shape in range(3 if quick else 8):
